@@ -222,6 +222,10 @@ class State:
         for t, pol in self.facts:
             if t.same(test):
                 return pol
+            # x > 0  is the negation of  -x >= 0  (same normal form up to sign)
+            if test.rf is not None and t.rf is not None and {t.kind, test.kind} == {'pos', 'nonneg'} \
+                    and t.rf.equals(-test.rf):
+                return not pol
         return None
 
 
